@@ -10,5 +10,7 @@ CONSTANTS
   AcceptTopBit = FALSE
   LimitPerFrame = FALSE
   PongEmpty = FALSE
+  BufSizes = {0}
+  CtlNeedsBuffer = FALSE
 INVARIANTS Emit
 CHECK_DEADLOCK FALSE
